@@ -253,7 +253,7 @@ def run_case(ctx, i, rng):
     if i % 4 == 2:
         # every iteration of a multi-iteration call is such a step: one call of K iterations equals K calls of one iteration (each of which the
         # one-step oracle covers from its own start state)
-        K = int(rng.integers(3, 9))
+        K = int(rng.integers(3, 9)) if rng.random() < 0.85 else int(rng.integers(10, 33))  # now and then many calls on one object (anything counted per call)
         ga, gb = M.build(spec), M.build(spec)
         try:
             M.quiet_optimize(ga, max_iter=K, tol=0.0, fix_first_pose=ffp)
